@@ -100,15 +100,17 @@ Definition update_market_price (m : market) : market :=
   else m1.
 
 (* ---------------- clock: Market._update_time ---------------- *)
+(* expired orders are reported in the order of expire_time_list appends, i.e. by order id *)
+Fixpoint ins_by_id (o : O) (l : list O) : list O :=
+  match l with
+  | [] => [o]
+  | x :: r => if oid o <? oid x then o :: l else x :: ins_by_id o r
+  end.
+Definition by_id (l : list O) : list O := fold_right ins_by_id [] l.
 Definition tick (m : market) (f : Q) : market * list record :=
   let t := m_time m + 1 in
   let eb := filter (expired t) (m_buys m) in
   let es := filter (expired t) (m_sells m) in
-  let by_id := fun l => fold_right (fun (o : O) acc =>
-                  (fix ins (l : list O) := match l with
-                                           | [] => [o]
-                                           | x :: r => if oid o <? oid x then o :: l else x :: ins r
-                                           end) acc) [] l in
   let eb := by_id eb in let es := by_id es in
   let m := m <| m_time := t |>
              <| m_buys := filter (fun o => negb (expired t o)) (m_buys m) |>
@@ -286,7 +288,8 @@ Definition q_state (m : market) : ov :=
       ov_book (m_buys m); ov_book (m_sells m);
       VL (depth true (m_buys m)); VL (depth false (m_sells m));
       voq (geto (m_mp m) t); voq (geto (m_mid m) t); voq (geto (m_last m) t); voq (geto (m_fund m) t);
-      VZ (getz (m_vol m) t); VQ (getq (m_turn m) t); VZ (getz (m_nbuy m) t); VZ (getz (m_nsell m) t)].
+      VZ (getz (m_vol m) t); VQ (getq (m_turn m) t); VZ (getz (m_nbuy m) t); VZ (getz (m_nsell m) t);
+      VB true   (* representation invariant of the implementation's heaps (the model's book is the sorted list) *)].
 
 Definition sumz_to (l : list Z) (t : Z) : Z := fold_right Z.add 0 (firstn (S (zi t)) l).
 Definition sumq_to (l : list Q) (t : Z) : Q := fold_right qadd (0#1) (firstn (S (zi t)) l).
@@ -324,20 +327,32 @@ Inductive op :=
 | QAt (t : Z)
 | QSeries.
 
-Definition step (m : market) (o : op) : result (market * ov) :=
+(* state-changing operations: new state and the records (logs) they emit *)
+Definition step_rec (m : market) (o : op) : result (market * list record) :=
   match o with
-  | OAdd ag mk buy p v ttlv => do (m', r) <- add_order m ag mk buy p v ttlv; Ok (m', ov_record r)
+  | OAdd ag mk buy p v ttlv => do (m', r) <- add_order m ag mk buy p v ttlv; Ok (m', [r])
   | OResubmit _ => Err EAlreadySubmitted
-  | OCancel i => do (m', r) <- cancel_order m i; Ok (m', ov_record r)
+  | OCancel i => do (m', r) <- cancel_order m i; Ok (m', [r])
   | OCancelForeign => Err ENotThisMarket
   | OCancelUnsubmitted => Err ENotSubmitted
-  | OExec => do (m', rs) <- execution m; Ok (m', VL (map ov_record rs))
-  | OTick f => let '(m', rs) := tick m f in Ok (m', VL (map ov_record rs))
-  | ORun b => Ok (m <| m_running := b |>, VN)
-  | QState => Ok (m, q_state m)
-  | QAt t => Ok (m, q_at m t)
-  | QSeries => Ok (m, q_series m)
+  | OExec => execution m
+  | OTick f => Ok (tick m f)
+  | ORun b => Ok (m <| m_running := b |>, [])
+  | QState | QAt _ | QSeries => Ok (m, [])
   end.
+
+Definition render (m : market) (o : op) (rs : list record) : ov :=
+  match o with
+  | OAdd _ _ _ _ _ _ | OCancel _ => match rs with [r] => ov_record r | _ => VL (map ov_record rs) end
+  | OExec | OTick _ => VL (map ov_record rs)
+  | QState => q_state m
+  | QAt t => q_at m t
+  | QSeries => q_series m
+  | _ => VN
+  end.
+
+Definition step (m : market) (o : op) : result (market * ov) :=
+  do (m', rs) <- step_rec m o; Ok (m', render m' o rs).
 
 (* A rejected operation leaves the state as it was (true of every Python raise site that the
    model maps to Err: each check precedes the first mutation). *)
@@ -354,6 +369,13 @@ Fixpoint final_state (m : market) (ops : list op) : market :=
   match ops with
   | [] => m
   | o :: r => match step m o with Ok (m', _) => final_state m' r | Err _ => final_state m r end
+  end.
+
+(* all records emitted along an operation list (rejected operations emit nothing) *)
+Fixpoint trace (m : market) (ops : list op) : list record :=
+  match ops with
+  | [] => []
+  | o :: r => match step_rec m o with Ok (m', rs) => rs ++ trace m' r | Err _ => trace m r end
   end.
 
 (* one correspondence case: market id, tick, initial price, ops *)
